@@ -337,6 +337,12 @@ class CallMixin(ExprMixin):
             return XReal(smt.fresh(name + "_isinf", smt.Bo), smt.fresh(name, smt.R))
         if t == "str":
             return OpaqueStr(name)
+        if t == "list":
+            lst = st.alloc(ObjMeta("list", None, name), {"items": ()})
+            n = smt.fresh(name + "_len", smt.I)
+            st.assume(n >= 0)
+            st.heap[lst.oid]["$len"] = n
+            return lst
         if t.startswith("opt[") and t.endswith("]"):
             return Opt(smt.fresh(name + "_isnone", smt.Bo), self.make_symbolic(st, t[4:-1], name))
         if t.startswith("tuple[") and t.endswith("]"):
@@ -462,6 +468,16 @@ class CallMixin(ExprMixin):
         return ops.truth(st, v)
 
     def havoc_path(self, st: State, sctx: Ctx, path: str) -> None:
+        if path.strip().startswith("var:"):
+            # the binding of a (closure) variable changes, not the object it referred to
+            name = path.strip()[4:]
+            fr = sctx.frame
+            while fr is not None and name not in st.heap[fr.oid]:
+                fr = st.heap[fr.oid].get("$parent")
+            if fr is None:
+                raise EngineError(f"rely/modifies: variable {name} not found")
+            st.heap[fr.oid][name] = self.havoc_like(st, st.heap[fr.oid][name], name, path)
+            return
         node = ast.parse(path.strip(), mode="eval").body
         if isinstance(node, ast.Name):
             # a mutable parameter object: havoc all its fields
@@ -693,6 +709,11 @@ class CallMixin(ExprMixin):
             if self.feasible(st):
                 self.apply_call_hints(st, ctx, fi, old, res, line)
                 results.append((st, res))
+        if fi.is_async and self.top_ctx is not None and self.top_ctx.contract is not None and \
+                (self.top_ctx.contract.env.get("rely_havoc") or self.top_ctx.contract.env.get("rely_inv")):
+            for s9, _r in results:
+                self.apply_rely(s9, ctx, line)
+            results = [(s9, r9) for s9, r9 in results if self.feasible(s9)]
         if not results and live_before and self.recording:
             raise EngineError(f"{ctx.func.key()}:{line}: applying the contract of {c.key} leaves no feasible outcome "
                               f"(contradictory postcondition or wrong result shape)")
